@@ -137,7 +137,7 @@ X_UNWRAP = {"fn": r"option::unwrap_failed|Option::<.*>::unwrap", "desc": r"."}
 X_TYPE = {"fn": r"assert_failed", "desc": r"VP-EXPECTED: type mismatch"}
 X_CAP = {"fn": r"Mem>?::expand|mem::Mem::expand", "desc": r"placeholder message|Can't change capacity"}
 X_RANGE = {"fn": r"any_vec::into_range|option::expect_failed|Option::<usize>::expect", "desc": r"assertion failed|overflow|placeholder|maximum usize"}
-X_STACKN = {"fn": r"StackN::<.*>::build|stack_n", "desc": r"placeholder message|Insufficient storage"}
+X_STACKN = {"fn": r"StackN<.*> as .*MemBuilder>::build|StackN::<.*>::build", "desc": r"placeholder message|Insufficient storage"}
 
 
 def tn(t):
@@ -177,9 +177,36 @@ def rot_pick(name, seed, mod):
     return (h % mod) == (seed % mod)
 
 
+def _slow():
+    p = os.path.join(os.path.dirname(__file__), "tuning.json")
+    if os.path.exists(p):
+        import json
+        return json.load(open(p)).get("slow", {})
+    return {}
+
+
 def select(prop, tier, seed):
-    """quick: tier 'quick' entries + a seeded 1/ROT rotation of 'rot' entries; thorough: everything."""
+    """quick: tier 'quick' entries + a seeded 1/ROT rotation of 'rot' entries, minus instances measured too slow
+    for the every-change tier (tuning.json) unless their role would be left without a quick instance;
+    thorough: everything."""
     _load()
+    out = _select(prop, tier, seed)
+    if tier == "thorough":
+        return out
+    slow = _slow()
+    fast_roles = set(e["role"] for e in out if e["name"] not in slow)
+    keep = []
+    kept_slow_role = set()
+    for e in out:
+        if e["name"] not in slow:
+            keep.append(e)
+        elif e["role"] not in fast_roles and e["role"] not in kept_slow_role:
+            kept_slow_role.add(e["role"])
+            keep.append(e)
+    return keep
+
+
+def _select(prop, tier, seed):
     out = []
     for e in _ENTRIES:
         if prop not in e["props"]:
